@@ -121,6 +121,8 @@ Definition import_tail (alias module_path : text) (s1 : pstate) : outcome pstate
       do toks <- expand_dirname cwd toks final;
       let toks := prepend_names toks alias false in
       let ins := filter (fun t => negb (tk_is (t_kind t) TEOT)) toks in
+      let tl := last ins (eot []) in
+      if tk_is (t_kind tl) TImport then Err (mkErr0 ESyntax (t_line tl) (t_file tl) TagGeneric) else
       match ps_rest s1 with
       | semi :: after =>
           let new_rest := semi :: ins ++ after in
@@ -162,6 +164,7 @@ Theorem import_splices_in_place alias module_path s1 s2 :
     tokenize src (module_file_path main_path module_path) = Ok toks /\
     expand_dirname cwd toks (module_file_path main_path module_path) = Ok toks' /\
     ps_rest s2 = semi :: filter (fun t => negb (tk_is (t_kind t) TEOT)) (prepend_names toks' alias false) ++ after /\
+    tk_is (t_kind (last (filter (fun t => negb (tk_is (t_kind t) TEOT)) (prepend_names toks' alias false)) (eot []))) TImport = false /\
     ps_mods s2 = (alias, same_file_key (module_file_path main_path module_path)) :: ps_mods s1.
 Proof.
   unfold import_tail. destruct (negb (ends_with module_path module_ext)).
@@ -170,6 +173,7 @@ Proof.
   destruct (fs (module_file_path main_path module_path)) as [src|] eqn:Ef; [|discriminate].
   destruct (tokenize src _) as [toks| | |] eqn:Et; cbn [bind]; try discriminate.
   destruct (expand_dirname cwd toks _) as [toks'| | |] eqn:Ed; cbn [bind]; try discriminate.
+  cbv zeta. destruct (tk_is (t_kind (last _ _)) TImport) eqn:El; [discriminate|].
   destruct (ps_rest s1) as [|semi after] eqn:Er; [discriminate|].
   intros H; injection H as <-. exists semi, after, src, toks, toks'. cbn. auto 10.
 Qed.
